@@ -112,7 +112,7 @@ function genSpec(seed, idx) {
         const o = rng.pick(opaques);
         params.push({ name: "p" + p, kind: "optopaque", ty: o.name, lt: outerLt(), args: o.lts.map(() => anyLt()) });
       } else if (r < 8) {
-        params.push({ name: "p" + p, kind: "slice", enc: rng.pick(["DiplomatStr", "str", "DiplomatStr16", "u8s"]), lt: outerLt() });
+        params.push({ name: "p" + p, kind: "slice", enc: rng.pick(["DiplomatStr", "str", "DiplomatStr16", "u8s", "u8smut"]), lt: outerLt() });
       } else {
         const s = rng.pick(structs);
         // lifetime slots of a struct are often instantiated with one and the same lifetime
@@ -175,7 +175,7 @@ const lt = (l) => (l === "static" ? "'static" : "'" + l);
 function tyArgs(args) { return args.length ? "<" + args.map(lt).join(", ") + ">" : ""; }
 function sliceTy(enc, l) {
   const r = l ? "&" + lt(l) + " " : "&";
-  return enc === "u8s" ? r + "[u8]" : enc === "str" ? r + "str" : r + enc;
+  return enc === "u8s" ? r + "[u8]" : enc === "u8smut" ? r + "mut [u8]" : enc === "str" ? r + "str" : r + enc;
 }
 function fieldSliceTy(enc, l) {
   // struct fields must use the FFI-safe runtime spellings
